@@ -189,6 +189,9 @@ CHECKS["C03"] = dict(
     design="5/C03, 7")
 CHECKS["C14"] = dict(
     text="PARTIAL. Lean 4: later_registration_wins, registration_is_local, unknown_suffix_refused (registry as an association map); "
+         "registry_history + unrelated_registration_irrelevant (induction over EVERY history of registrations, each naming any number "
+         "of suffixes: open_workbook constructs the class of the last registration naming the suffix, else NotImplementedError), "
+         "corresponded on random histories with private registries; exit_releases_forever; "
          "exit_releases (for every operation sequence inside the with-block, after __exit__ no handle is held), close_idempotent. The OS "
          "descriptor table is OBSERVED by fault enumeration: every workbook class x every raise point x {path, caller's file object}, "
          "/proc/self/fd checked right after the block.",
